@@ -173,6 +173,8 @@ def gen_event(rng, uid, with_rule=True, zoned=None):
             sched.append("RDATE%s:" % (";VALUE=DATE" if ds[3] is None else "") +
                          ",".join("%04d%s" % (y, tail) + ("" if ds[3] is None else "Z") for y in ys))
             meta["cls"].add("rule+rdate")
+            if ys[0] == ds[0] and tail[:4] < dstxt[4:8]:
+                meta["cls"].add("rdate-before-dtstart")       # recorded shape D208
     elif rng.random() < 0.5:
         n = rng.randint(1, 70)
         ys = sorted(rng.sample(range(ds[0] + 1, ds[0] + 90), min(n, 80)))
@@ -328,7 +330,7 @@ def run(ctx):
                 continue
             if "easter" in cls and any(r_.byweekno for r_ in allr):
                 cls.add("weekno-easter")
-            special = cls & {"count-shared", "exrule-count", "rdate-exrule", "dst-gap-writeout", "weekno-easter"}
+            special = cls & {"count-shared", "exrule-count", "rdate-exrule", "dst-gap-writeout", "weekno-easter", "rdate-before-dtstart"}
             if special and special <= known_classes:
                 known[min(special)] += 1     # findings D161..D164: one shape each
                 continue
